@@ -369,6 +369,58 @@ Definition upd_sub (account sl : N) (f : stask -> stask) (subs : list (N * list 
 
 Record sps := { sp_t : atask; sp_db : store; sp_sub : option (N * N); sp_cont : bool; sp_panic : bool }.
 
+(* (A) a small contract delivered completely: needState[j] = false, pend--, stateCompleted *)
+Definition storage_A (t : atask) (sub : option (N * N)) (nsj lastset cont : bool) (account : N) (j : nat) : atask :=
+  if (match sub with None => true | Some _ => false end) && nsj && (negb lastset || negb cont) then
+    set_aux t (t_subs t) (sadd account (t_completed t)) (t_req t) (t_pend t - 1)%Z
+      (t_needCode t) (set_nth_false j (t_needState t)) (t_codeTasks t) (t_stateTasks t)
+  else t.
+
+(* (C) the last contract was chunked: switch to large-contract mode (create the chunk tasks) *)
+Definition storage_C (c : config) (t1 : atask) (sub : option (N * N)) (lastset cont : bool) (account : N)
+    (slots : list (N * bytes)) (acc : acct) : atask * option (N * N) * bool :=
+  match sub with
+  | None =>
+      if lastset && cont then
+        match get account (t_subs t1) with
+        | Some _ => (t1, None, false)
+        | None =>
+            match make_chunks c (map fst slots) (a_root acc) with
+            | None => (t1, None, true)
+            | Some tasks =>
+                (set_aux t1 (put account tasks (t_subs t1)) (t_completed t1) (t_req t1) (t_pend t1)
+                   (t_needCode t1) (t_needState t1) (t_codeTasks t1) (t_stateTasks t1),
+                 match tasks with st :: _ => Some (account, st_last st) | [] => None end, false)
+            end
+        end
+      else (t1, None, false)
+  | Some sb => (t1, Some sb, false)
+  end.
+
+(* (D) large contract delivery: cut at the chunk's Last, forward the chunk; then the flat write *)
+Definition storage_D (t2 : atask) (sub2 : option (N * N)) (account : N) (slots : list (N * bytes)) (s : sps) (p2 : bool) : sps :=
+  match sub2 with
+  | None =>
+      {| sp_t := t2; sp_db := write_slots account slots (sp_db s); sp_sub := None;
+         sp_cont := sp_cont s; sp_panic := sp_panic s || p2 |}
+  | Some (sa, sl) =>
+      let cont' := if existsb (fun '(k, _) => sl <=? k) slots then false else sp_cont s in
+      let slots' := filter (fun '(k, _) => k <=? sl) slots in
+      let '(f, p3) :=
+        if cont' then
+          match last_key slots' with
+          | Some lk => ((fun st => {| st_next := inc_hash lk; st_last := st_last st; st_root := st_root st;
+                                      st_req := st_req st; st_done := st_done st |}), false)
+          | None => ((fun st : stask => st), true)
+          end
+        else ((fun st => {| st_next := st_next st; st_last := st_last st; st_root := st_root st;
+                            st_req := st_req st; st_done := true |}), false) in
+      let t3 := set_aux t2 (upd_sub sa sl f (t_subs t2)) (t_completed t2) (t_req t2) (t_pend t2)
+                  (t_needCode t2) (t_needState t2) (t_codeTasks t2) (t_stateTasks t2) in
+      {| sp_t := t3; sp_db := write_slots account slots' (sp_db s); sp_sub := Some (sa, sl);
+         sp_cont := cont'; sp_panic := sp_panic s || p2 || p3 |}
+  end.
+
 (* one iteration of `for i, account := range res.accounts` *)
 Definition storage_one (c : config) (n i : nat) (account root : N) (set : option (list (N * bytes))) (s : sps) : sps :=
   match set with
@@ -388,57 +440,12 @@ Definition storage_one (c : config) (n i : nat) (account root : N) (set : option
               {| sp_t := t; sp_db := write_slots account slots (sp_db s); sp_sub := sp_sub s;
                  sp_cont := sp_cont s; sp_panic := sp_panic s |}
           | Some (j, acc) =>
-              (* (A) complete small storage *)
               match nth_error (t_needState t) j with
               | None => {| sp_t := t; sp_db := sp_db s; sp_sub := sp_sub s; sp_cont := sp_cont s; sp_panic := true |}
               | Some nsj =>
-              let doneA := (match sp_sub s with None => true | Some _ => false end) && nsj
-                           && (negb lastset || negb (sp_cont s)) in
-              let t1 := if doneA then
-                          set_aux t (t_subs t) (sadd account (t_completed t)) (t_req t) (t_pend t - 1)%Z
-                            (t_needCode t) (set_nth_false j (t_needState t)) (t_codeTasks t) (t_stateTasks t)
-                        else t in
-              (* (C) last contract chunked: switch to large-contract mode *)
-              let '(t2, sub2, p2) :=
-                match sp_sub s with
-                | None =>
-                    if lastset && sp_cont s then
-                      match get account (t_subs t1) with
-                      | Some _ => (t1, None, false)
-                      | None =>
-                          match make_chunks c (map fst slots) (a_root acc) with
-                          | None => (t1, None, true)
-                          | Some tasks =>
-                              (set_aux t1 (put account tasks (t_subs t1)) (t_completed t1) (t_req t1) (t_pend t1)
-                                 (t_needCode t1) (t_needState t1) (t_codeTasks t1) (t_stateTasks t1),
-                               match tasks with st :: _ => Some (account, st_last st) | [] => None end, false)
-                          end
-                      end
-                    else (t1, None, false)
-                | Some sb => (t1, Some sb, false)
-                end in
-              (* (D) large contract delivery: cut at the chunk's Last, forward the chunk *)
-              match sub2 with
-              | None =>
-                  {| sp_t := t2; sp_db := write_slots account slots (sp_db s); sp_sub := None;
-                     sp_cont := sp_cont s; sp_panic := sp_panic s || p2 |}
-              | Some (sa, sl) =>
-                  let cont' := if existsb (fun '(k, _) => sl <=? k) slots then false else sp_cont s in
-                  let slots' := filter (fun '(k, _) => k <=? sl) slots in
-                  let '(f, p3) :=
-                    if cont' then
-                      match last_key slots' with
-                      | Some lk => ((fun st => {| st_next := inc_hash lk; st_last := st_last st; st_root := st_root st;
-                                                  st_req := st_req st; st_done := st_done st |}), false)
-                      | None => ((fun st : stask => st), true)
-                      end
-                    else ((fun st => {| st_next := st_next st; st_last := st_last st; st_root := st_root st;
-                                        st_req := st_req st; st_done := true |}), false) in
-                  let t3 := set_aux t2 (upd_sub sa sl f (t_subs t2)) (t_completed t2) (t_req t2) (t_pend t2)
-                              (t_needCode t2) (t_needState t2) (t_codeTasks t2) (t_stateTasks t2) in
-                  {| sp_t := t3; sp_db := write_slots account slots' (sp_db s); sp_sub := Some (sa, sl);
-                     sp_cont := cont'; sp_panic := sp_panic s || p2 || p3 |}
-              end
+                  let t1 := storage_A t (sp_sub s) nsj lastset (sp_cont s) account j in
+                  let '(t2, sub2, p2) := storage_C c t1 (sp_sub s) lastset (sp_cont s) account slots acc in
+                  storage_D t2 sub2 account slots s p2
               end
           end
       end
